@@ -25,7 +25,25 @@ fn to_bal(b: report::Balance) -> Bal {
 }
 
 pub fn run(_args: &[String]) -> i32 {
-    let text = "2024/01/10 a\n    A    5 X\n    B   -5 X\n\n2024/01/20 b\n    A    -5 X\n    C    5 X\n\n2024/01/20 c\n    A    3 Y\n    B\n\n2024/02/01 d\n    C    -5 X\n    B    5 X\n\n";
+    // file order = date order; file order != date order (back-dated entries: the ledger keeps load order); declared precision
+    let texts = [
+        "2024/01/10 a\n    A    5 X\n    B   -5 X\n\n2024/01/20 b\n    A    -5 X\n    C    5 X\n\n2024/01/20 c\n    A    3 Y\n    B\n\n2024/02/01 d\n    C    -5 X\n    B    5 X\n\n",
+        "2024/01/20 b\n    A    -5 X\n    C    5 X\n\n2024/02/01 d\n    C    -5 X\n    B    5 X\n\n2024/01/10 a\n    A    5 X\n    B   -5 X\n\n2024/03/01 e\n    A    7 X\n    B\n\n2024/01/20 c\n    A    3 Y\n    B\n\n",
+        "commodity X\n    format 1,000.00 X\n\n2024/02/01 d\n    C    -5.005 X\n    B\n\n2024/01/10 a\n    A    5.005 X\n    B   -5.005 X\n\n2024/01/20 b\n    A    -5.005 X\n    C\n\n",
+    ];
+    let mut bad: Vec<(String, String)> = Vec::new();
+    let mut evaluated = 0u64;
+    for text in texts {
+        run_one(text, &mut bad, &mut evaluated);
+    }
+    for (s, why) in bad.iter().take(10) {
+        println!("{}", serde_json::json!({"input": s, "contradiction": why}));
+    }
+    println!("{}", serde_json::json!({"family": "c04", "evaluated": evaluated, "contradictions": bad.len()}));
+    if bad.is_empty() { 0 } else { 1 }
+}
+
+fn run_one(text: &str, bad: &mut Vec<(String, String)>, evaluated_out: &mut u64) {
     let arena = Bump::new();
     let mut ctx = report::ReportContext::new(&arena);
     let mut files: HashMap<PathBuf, Vec<u8>> = HashMap::new();
@@ -45,8 +63,7 @@ pub fn run(_args: &[String]) -> i32 {
         }
     }
     let d = |m: u32, dd: u32| NaiveDate::from_ymd_opt(2024, m, dd).unwrap();
-    let points = [None, Some(d(1, 1)), Some(d(1, 10)), Some(d(1, 11)), Some(d(1, 20)), Some(d(1, 21)), Some(d(2, 1)), Some(d(2, 2)), Some(d(3, 1))];
-    let mut bad: Vec<(String, String)> = Vec::new();
+    let points = [None, Some(d(1, 1)), Some(d(1, 10)), Some(d(1, 11)), Some(d(1, 20)), Some(d(1, 21)), Some(d(2, 1)), Some(d(2, 2)), Some(d(3, 1)), Some(d(3, 2))];
     let mut evaluated = 0u64;
     for start in points {
         for end in points {
@@ -79,14 +96,20 @@ pub fn run(_args: &[String]) -> i32 {
             }
             got_nz.retain(|_, h| !h.is_empty());
             want.retain(|_, h| !h.is_empty());
-            if got_nz != want && bad.len() < 10 {
+            // "up to rounding to declared precision": X is declared with 2 decimal places in the third ledger
+            let tol: Decimal = if text.contains("format 1,000.00 X") { "0.005".parse().unwrap() } else { Decimal::ZERO };
+            let close = |a: &Bal, b: &Bal| {
+                let keys: std::collections::BTreeSet<(&String, &String)> = a.iter().chain(b.iter()).flat_map(|(k, h)| h.keys().map(move |c| (k, c))).collect();
+                keys.into_iter().all(|(k, c)| {
+                    let x = a.get(k).and_then(|h| h.get(c)).copied().unwrap_or_default();
+                    let y = b.get(k).and_then(|h| h.get(c)).copied().unwrap_or_default();
+                    (x - y).abs() <= tol
+                })
+            };
+            if !close(&got_nz, &want) && bad.len() < 10 {
                 bad.push((format!("ledger:\n{}window: start={:?} end={:?}", text, start, end), format!("balance report {:?} != sum of register postings in [start, end) {:?}", got_nz, want)));
             }
         }
     }
-    for (s, why) in bad.iter().take(10) {
-        println!("{}", serde_json::json!({"input": s, "contradiction": why}));
-    }
-    println!("{}", serde_json::json!({"family": "c04", "evaluated": evaluated, "contradictions": bad.len()}));
-    if bad.is_empty() { 0 } else { 1 }
+    *evaluated_out += evaluated;
 }
